@@ -688,6 +688,10 @@ def check_files(case, ctx):
                         "%s: %s stored as %r %r, read as %r" % (
                             what, name, dims, vals.tolist(),
                             got.get(name, (None, None)))))
+        if custom:
+            ctx.label("custom-then-plain")
+            check_collapse(ctx, spec, common.collapse(ds.copy(deep=True)),
+                           names[0], [], "files, plain collapse after " + what)
     finally:
         shutil.rmtree(tmp, ignore_errors=True)
 
